@@ -22,20 +22,20 @@ Proof. intros j c' E. inversion E. auto. Qed.
 
 Ltac other l := exists l; split; [|apply oc_other; intros; discriminate].
 
-Lemma valid_enabled f s j v : s_panic s = false -> nth_error (s_vs s) j = Some v -> v_done v = false ->
+Lemma valid_enabled f s j v : s_panic s = false -> s_hardexit s = false -> nth_error (s_vs s) j = Some v -> v_done v = false ->
   (v_q v <> [] \/ s_alive s = false) -> forall i c, exists l, step f l s <> None /\ only_choice l i c.
 Proof.
-  intros Hp N D Q i c. other (L_valid j). unfold step, step_valid. rewrite Hp, N, D.
+  intros Hp Hh N D Q i c. other (L_valid j). unfold step, step_valid. rewrite Hp, Hh, N, D.
   destruct (v_q v) as [|k q]; [|discriminate].
   destruct Q as [Q|Q]; [congruence|]. rewrite Q. discriminate.
 Qed.
 
-Lemma writer_progress f s i c : s_panic s = false ->
+Lemma writer_progress f s i c : s_panic s = false -> s_hardexit s = false ->
   match s_w s with W_absent | W_done => False | _ => True end ->
   (s_dq s <> [] \/ reader_done s = true) ->
   exists l, step f l s <> None /\ only_choice l i c.
 Proof.
-  intros Hp Hw Hdq. other (L_writer false). unfold step, step_writer. rewrite Hp.
+  intros Hp Hh Hw Hdq. other (L_writer false). unfold step, step_writer. rewrite Hp, Hh.
   destruct (s_w s) as [| |b|b| |]; try contradiction.
   - destruct (s_dq s) as [|b rest]; [|discriminate].
     destruct Hdq as [Hdq|Hdq]; [congruence|]. rewrite Hdq. discriminate.
@@ -44,58 +44,58 @@ Proof.
   - destruct (w_flush_ok s); [discriminate|]. destruct (pf_writer_err_handled f); discriminate.
 Qed.
 
-Lemma analysis_progress f s i c : goodf f -> Inv s -> s_panic s = false ->
+Lemma analysis_progress f s i c : goodf f -> Inv s -> s_panic s = false -> s_hardexit s = false ->
   match s_a s with A_absent | A_done => False | _ => True end ->
   (s_dq s <> [] \/ reader_done s = true) -> i <= length (s_vs s) -> pf_vcap_min f <= c ->
   exists l, step f l s <> None /\ only_choice l i c.
 Proof.
-  intros G I Hp Haa Hdq Hi Hc.
+  intros G I Hp Hh Haa Hdq Hi Hc.
   destruct I as (Imode & (Icap & Ivs) & Ialive & Imain & Ictrl).
   destruct (s_a s) as [| | |b|l| | |] eqn:Ha; try contradiction.
-  - exists (L_analysis i c); split; [|apply oc_self]. unfold step, step_analysis. rewrite Hp, Ha.
+  - exists (L_analysis i c); split; [|apply oc_self]. unfold step, step_analysis. rewrite Hp, Hh, Ha.
     destruct (pf_analysis_polls f && s_stop s); discriminate.
-  - exists (L_analysis i c); split; [|apply oc_self]. unfold step, step_analysis. rewrite Hp, Ha.
+  - exists (L_analysis i c); split; [|apply oc_self]. unfold step, step_analysis. rewrite Hp, Hh, Ha.
     destruct (s_dq s) as [|b rest]; [|discriminate].
     destruct Hdq as [Hdq|Hdq]; [congruence|]. rewrite Hdq. discriminate.
-  - exists (L_analysis i c); split; [|apply oc_self]. unfold step, step_analysis. rewrite Hp, Ha. discriminate.
+  - exists (L_analysis i c); split; [|apply oc_self]. unfold step, step_analysis. rewrite Hp, Hh, Ha. discriminate.
   - destruct l as [|k l].
-    { exists (L_analysis i c); split; [|apply oc_self]. unfold step, step_analysis. rewrite Hp, Ha. discriminate. }
+    { exists (L_analysis i c); split; [|apply oc_self]. unfold step, step_analysis. rewrite Hp, Hh, Ha. discriminate. }
     destruct (nth_error (s_vs s) i) as [v|] eqn:Hn.
     + destruct (v_done v) eqn:Hvd.
-      * exists (L_analysis i c); split; [|apply oc_self]. unfold step, step_analysis. rewrite Hp, Ha.
+      * exists (L_analysis i c); split; [|apply oc_self]. unfold step, step_analysis. rewrite Hp, Hh, Ha.
         destruct (c_mode (s_cfg s)); rewrite ?Hn, ?Hvd; try discriminate.
         destruct (s_open s); [discriminate|]. destruct (pf_view_err_handled f); discriminate.
       * destruct (length (v_q v) <? v_cap v) eqn:Hfull.
-        -- exists (L_analysis i c); split; [|apply oc_self]. unfold step, step_analysis. rewrite Hp, Ha.
+        -- exists (L_analysis i c); split; [|apply oc_self]. unfold step, step_analysis. rewrite Hp, Hh, Ha.
            destruct (c_mode (s_cfg s)); rewrite ?Hn, ?Hvd, ?Hfull; try discriminate.
            destruct (s_open s); [discriminate|]. destruct (pf_view_err_handled f); discriminate.
         -- destruct (c_mode (s_cfg s)) eqn:Hmode.
            2:{ exists (L_analysis i c); split; [|apply oc_self]. unfold step, step_analysis.
-               rewrite Hp, Ha, Hmode. destruct (s_open s); [discriminate|]. destruct (pf_view_err_handled f); discriminate. }
-           all: apply (valid_enabled f s i v Hp Hn Hvd); left;
+               rewrite Hp, Hh, Ha, Hmode. destruct (s_open s); [discriminate|]. destruct (pf_view_err_handled f); discriminate. }
+           all: apply (valid_enabled f s i v Hp Hh Hn Hvd); left;
              apply Nat.ltb_ge in Hfull;
              assert (1 <= v_cap v) by (rewrite Forall_forall in Icap; apply Icap; eapply nth_error_In; eauto);
              destruct (v_q v); cbn in *; [lia|discriminate].
     + assert (i = length (s_vs s)) as Ei by (apply nth_error_None in Hn; lia).
-      exists (L_analysis i c); split; [|apply oc_self]. unfold step, step_analysis. rewrite Hp, Ha.
+      exists (L_analysis i c); split; [|apply oc_self]. unfold step, step_analysis. rewrite Hp, Hh, Ha.
       destruct (c_mode (s_cfg s)); rewrite ?Hn; try (
         replace ((i =? length (s_vs s)) && (pf_vcap_min f <=? c)) with true
           by (symmetry; apply andb_true_iff; split; [apply Nat.eqb_eq; assumption|apply Nat.leb_le; assumption]);
         discriminate).
       destruct (s_open s); [discriminate|]. destruct (pf_view_err_handled f); discriminate.
-  - exists (L_analysis i c); split; [|apply oc_self]. unfold step, step_analysis. rewrite Hp, Ha. discriminate.
+  - exists (L_analysis i c); split; [|apply oc_self]. unfold step, step_analysis. rewrite Hp, Hh, Ha. discriminate.
   - unfold alive_ok in Ialive. rewrite Ha in Ialive.
     destruct (all_done (s_vs s)) eqn:Had.
-    + exists (L_analysis i c); split; [|apply oc_self]. unfold step, step_analysis. rewrite Hp, Ha, Had. discriminate.
+    + exists (L_analysis i c); split; [|apply oc_self]. unfold step, step_analysis. rewrite Hp, Hh, Ha, Had. discriminate.
     + destruct (all_done_false_ex _ Had) as (j & v & N & D).
-      apply (valid_enabled f s j v Hp N D). right. assumption.
+      apply (valid_enabled f s j v Hp Hh N D). right. assumption.
 Qed.
 
-Lemma consumer_progress f s i c : goodf f -> Inv s -> s_panic s = false -> consumer_alive s = true ->
+Lemma consumer_progress f s i c : goodf f -> Inv s -> s_panic s = false -> s_hardexit s = false -> consumer_alive s = true ->
   (s_dq s <> [] \/ reader_done s = true) -> i <= length (s_vs s) -> pf_vcap_min f <= c ->
   exists l, step f l s <> None /\ only_choice l i c.
 Proof.
-  intros G I Hp Hca Hdq Hi Hc. unfold consumer_alive in Hca. apply orb_true_iff in Hca. destruct Hca as [Hca|Hca].
+  intros G I Hp Hh Hca Hdq Hi Hc. unfold consumer_alive in Hca. apply orb_true_iff in Hca. destruct Hca as [Hca|Hca].
   - apply analysis_progress; auto. destruct (s_a s); try discriminate; exact Logic.I.
   - apply writer_progress; auto. destruct (s_w s); try discriminate; exact Logic.I.
 Qed.
@@ -105,41 +105,42 @@ Theorem no_deadlock f s i c : goodf f -> Inv s -> final s = false ->
   exists l, step f l s <> None /\ only_choice l i c.
 Proof.
   intros G I Hfin Hi Hc. unfold final in Hfin. apply orb_false_iff in Hfin. destruct Hfin as [Hp Hm].
+  apply orb_false_iff in Hp. destruct Hp as [Hp Hh].
   pose proof I as (Imode & (Icap & Ivs) & Ialive & Imain & Ictrl).
   destruct (s_c s) eqn:Hcc.
-  2:{ other L_ctrl. unfold step, step_ctrl. rewrite Hp, Hcc.
+  2:{ other L_ctrl. unfold step, step_ctrl. rewrite Hp, Hh, Hcc.
       destruct (c_stats_stdout (s_cfg s) && negb (s_open s) && negb (pf_stats_stdout_handled f)); discriminate. }
   2:{ unfold ctrl_ok in Ictrl. rewrite Hcc in Ictrl. destruct Ictrl as [_ S0].
       unfold stats_senders0, main_holds_stats in S0.
-      other L_main. unfold step, step_main. rewrite Hp. destruct (s_m s); cbn in S0; try discriminate.
+      other L_main. unfold step, step_main. rewrite Hp, Hh. destruct (s_m s); cbn in S0; try discriminate.
       rewrite Hcc. discriminate. }
   destruct (s_sq s) as [|k rest] eqn:Hsq.
-  2:{ other L_ctrl. unfold step, step_ctrl. rewrite Hp, Hcc, Hsq.
+  2:{ other L_ctrl. unfold step, step_ctrl. rewrite Hp, Hh, Hcc, Hsq.
       destruct k; [discriminate| |]; destruct (s_fatal s); try discriminate.
       destruct ((0 <? c_cap (s_cfg s)) && (S (s_errs s) =? c_cap (s_cfg s))); discriminate. }
   destruct (s_r s) as [| |b|] eqn:Hr.
-  - other L_reader. unfold step, step_reader. rewrite Hp, Hr.
+  - other L_reader. unfold step, step_reader. rewrite Hp, Hh, Hr.
     destruct ((pf_reader_polls f && s_stop s) || s_lstop s); discriminate.
-  - other L_reader. unfold step, step_reader. rewrite Hp, Hr. destruct (s_input s); discriminate.
+  - other L_reader. unfold step, step_reader. rewrite Hp, Hh, Hr. destruct (s_input s); discriminate.
   - destruct (receivers0 s) eqn:Hr0.
-    { other L_reader. unfold step, step_reader. rewrite Hp, Hr, Hr0. discriminate. }
+    { other L_reader. unfold step, step_reader. rewrite Hp, Hh, Hr, Hr0. discriminate. }
     destruct (length (s_dq s) <? pf_dcap f) eqn:Hfull.
-    { other L_reader. unfold step, step_reader. rewrite Hp, Hr, Hr0, Hfull. discriminate. }
+    { other L_reader. unfold step, step_reader. rewrite Hp, Hh, Hr, Hr0, Hfull. discriminate. }
     assert (s_dq s <> []) as Hne.
     { apply Nat.ltb_ge in Hfull. pose proof (gf_dcap f G). destruct (s_dq s); cbn in *; [lia|discriminate]. }
     unfold receivers0 in Hr0. apply andb_false_iff in Hr0. destruct Hr0 as [Hr0|Hr0].
     + apply negb_false_iff in Hr0. unfold main_ok in Imain.
-      other L_main. unfold step, step_main. rewrite Hp.
+      other L_main. unfold step, step_main. rewrite Hp, Hh.
       destruct (s_m s); try discriminate; try (destruct Imain as [? ?]; congruence); congruence.
     + apply negb_false_iff in Hr0. apply consumer_progress; auto.
   - assert (reader_done s = true) as Hrd by (unfold reader_done; rewrite Hr; reflexivity).
     destruct (s_m s) eqn:Hmm; try discriminate.
-    + other L_main. unfold step, step_main. rewrite Hp, Hmm. discriminate.
-    + other L_main. unfold step, step_main. rewrite Hp, Hmm. destruct (s_iq s); [rewrite Hrd|]; discriminate.
+    + other L_main. unfold step, step_main. rewrite Hp, Hh, Hmm. discriminate.
+    + other L_main. unfold step, step_main. rewrite Hp, Hh, Hmm. destruct (s_iq s); [rewrite Hrd|]; discriminate.
     + destruct (consumer_alive s) eqn:Hca.
       * apply consumer_progress; auto.
-      * other L_main. unfold step, step_main. rewrite Hp, Hmm, Hca. discriminate.
-    + other L_ctrl. unfold step, step_ctrl. rewrite Hp, Hcc, Hsq.
+      * other L_main. unfold step, step_main. rewrite Hp, Hh, Hmm, Hca. discriminate.
+    + other L_ctrl. unfold step, step_ctrl. rewrite Hp, Hh, Hcc, Hsq.
       unfold main_ok in Imain. rewrite Hmm in Imain. destruct Imain as (_ & _ & _ & Hca).
       unfold consumer_alive in Hca. apply orb_false_iff in Hca. destruct Hca as [Haa _].
       unfold stats_senders0, main_holds_stats, analysis_alive. rewrite Hmm, Haa. cbn.
@@ -168,9 +169,10 @@ Record handled (f : pfacts) : Prop := {
 
 Theorem no_panic_step f l s s' : handled f -> step f l s = Some s' -> s_panic s' = false.
 Proof.
-  intros [Hw Hv Hs]. unfold step. destruct (s_panic s) eqn:Hp; [discriminate|].
+  intros [Hw Hv Hs]. unfold step. destruct (s_panic s) eqn:Hp; [discriminate|]. destruct (s_hardexit s) eqn:Hh; [discriminate|].
   destruct l.
-  - destruct (s_stop s); [discriminate|]. intros H; got H. assumption.
+  - destruct (1 <=? s_sigs s); [discriminate|].
+    destruct (s_stop s && negb (pf_handler_own_counter f)); intros H; got H; assumption.
   - destruct (s_open s); [|discriminate]. intros H; got H. assumption.
   - unfold step_reader. destruct (s_r s); try discriminate.
     + destruct ((pf_reader_polls f && s_stop s) || s_lstop s); intros H; got H; assumption.
@@ -235,6 +237,10 @@ Ltac stepcases H :=
       | _ => destruct x eqn:?
       end
   end; try discriminate; try (inversion H; subst; clear H).
+
+(* a single signal never makes the handler exit the process (it does so only on its own second call) *)
+Theorem no_hard_exit_step f l s s' : pf_handler_own_counter f = true -> step f l s = Some s' -> s_hardexit s' = false.
+Proof. intros Hc H. destruct l; stepcases H; cbn; auto; rewrite Hc, andb_false_r in *; discriminate. Qed.
 
 Lemma stop_monotone f l s s' : step f l s = Some s' -> s_stop s = true -> s_stop s' = true.
 Proof. intros H St. destruct l; stepcases H; cbn; auto. Qed.
